@@ -1,5 +1,5 @@
 (* Properties_C06.v — C06: saving is deterministic and idempotent. *)
-From ElfioV Require Import Bytes Mem Stream SectionData Strings Elfio Table Loader Layout Writer Layout_proofs Segment_proofs Oneseg_proofs Oneseg_again Accessors ByName_proofs Save_twice.
+From ElfioV Require Import Bytes Mem Stream SectionData Strings Elfio Table Loader Layout Writer Layout_proofs Segment_proofs Oneseg_proofs Oneseg_again Accessors ByName_proofs Save_twice Oneseg_writer Save_twice_oneseg.
 Local Open Scope N_scope.
 
 (* save() is a function of the object and the stream: the model has no hidden
@@ -103,6 +103,29 @@ Theorem C06_second_save_identical_without_segments :
     forall r, save junk el0 os = Ok r -> save junk (fst (fst r)) os = Ok r.
 Proof. exact save_twice_noseg. Qed.
 Print Assumptions C06_second_save_identical_without_segments.
+
+(* ... and for objects with one segment of automatically addressed, non-empty allocated data members plus free
+   sections, built through the API (the segment record holds no data and came from no stream; no address
+   translation), whose sections have been requested before *)
+Theorem C06_second_save_identical_one_segment :
+  forall junk el0 os h0 g bound ms,
+    let idxs := g_sections g in
+    let align := if 0 <? p_align g then p_align g else 1 in
+    let secs := el_secs el0 in
+    let pos0 := e_ehsize h0 + e_phentsize h0 in
+    os_bad os = false -> xlat_empty (el_xlat el0) = true ->
+    el_hdr el0 = Some h0 -> el_segs el0 = [g] -> lenN secs < 2 ^ 16 ->
+    lenN idxs < 2 ^ 16 -> idxs <> [] -> g_offset_set g = false -> p_type g <> PT_PHDR -> NoDup idxs ->
+    Forall2 (fun i s => nth_optN secs i = Some s) idxs ms ->
+    Forall auto_member ms -> Forall (fun s => sh_addralign s <= p_align g) ms -> Forall (fun s => sh_size s <> 0) ms ->
+    bound <= 2 ^ 63 -> Forall (fun s => bound <= 2 ^ xw (s_cls s)) secs -> bound <= 2 ^ xw (g_cls g) ->
+    p_align g < 2 ^ 63 -> 0 < pos0 ->
+    p_vaddr g + pos0 + align + mbudget ms + budget secs + 16 < bound ->
+    Forall quiet secs -> g_data g = None -> g_stream_size g = 0 -> g_loaded g = false ->
+    (forall s, In s secs -> s_index s = 0 -> csize s = 0) ->
+    forall r, save junk el0 os = Ok r -> save junk (fst (fst r)) os = Ok r.
+Proof. exact save_twice_oneseg. Qed.
+Print Assumptions C06_second_save_identical_one_segment.
 
 (* non-vacuity: ELF32, a PT_LOAD segment at 0x8048004 (align 0x1000) holding two program sections, a free section behind *)
 Definition ex1_ms (i al sz : N) : section :=
